@@ -131,19 +131,20 @@ fn run_real(pushes: &[Push], variant: u8) -> Result<RealOut, String> {
         } else {
             None
         };
-        let mut b = UriBuilder::new();
+        // variant 5: the builder as its `Default` impl makes it (the same builder as `new()`)
+        let mut b = if variant == 5 { UriBuilder::default() } else { UriBuilder::new() };
         for p in &pushes {
             match p {
                 Push::Lit(l) => b.push_literal(l),
                 Push::Path(v) => {
-                    if variant == 0 {
+                    if variant == 0 || variant == 5 {
                         b.push_path_parameter_raw(v)
                     } else {
                         b.push_path_parameter(v)
                     }
                 }
                 Push::Query(k, v) => match variant {
-                    0 => b.push_query_parameter_raw(k, v),
+                    0 | 5 => b.push_query_parameter_raw(k, v),
                     1 => b.push_query_parameter(k, v),
                     2 => b.push_list_query_parameter(k, std::slice::from_ref(v)),
                     3 => b.push_optional_query_parameter(k, &Some(v.clone())),
@@ -367,6 +368,7 @@ pub fn cases(seed: u64, tier: Tier) -> Cases {
     // empty values
     for (name, t) in templates("", "") {
         one(&mut cs, name, &t, 0, true);
+        one(&mut cs, name, &t, 5, true);
     }
     // seeded Unicode strings
     let n = if tier == Tier::Quick { 300 } else { 5000 };
@@ -377,7 +379,7 @@ pub fn cases(seed: u64, tier: Tier) -> Cases {
         let w: String = (0..rng.below(8)).map(|_| *rng.pick(&pool)).collect();
         let ts = templates(&v, &w);
         let (name, t) = &ts[rng.below(ts.len())];
-        one(&mut cs, name, t, rng.below(5) as u8, true);
+        one(&mut cs, name, t, rng.below(6) as u8, true);
     }
     // very long values: within and beyond http::Uri's limit
     for len in [21000usize, 21840, 21845, 65000, 65531, 65532, 65533, 65534, 70000] {
